@@ -31,8 +31,8 @@ def main():
     pid, k = sys.argv[1], sys.argv[2]
     extra = sys.argv[3:]
     src = "/tmp/seeded/%s/out" % pid
-    wt = "/tmp/seeded/%s/wt" % pid
-    vcopy = "/tmp/seedv/%s" % pid
+    wt = os.environ.get("SEEDRUN_WT", "/tmp/seeded/%s/wt" % pid)
+    vcopy = os.environ.get("SEEDRUN_VCOPY", "/tmp/seedv/%s" % pid)
     patch = os.path.join(src, "patch%s.diff" % k)
     demo = os.path.join(src, "demo%s.py" % k)
     meta = {}
